@@ -31,4 +31,124 @@ theorem rejected_reports_error (A : Arena) (n root : Nat) (w : List QN)
   rw [he] at h
   simp at h
 
+/-- every child step only appends errors carrying the index of the child it processes -/
+theorem childStep_errors (A : Arena) (n root i : Nat) (q : QN) :
+    ∀ (fuel : Nat) (ls : LoopSt) (e : ChildErr), e ∈ (childStep A n root i q fuel ls).errors →
+      e ∈ ls.errors ∨ e.index = i := by
+  intro fuel
+  induction fuel with
+  | zero => intro ls e h; exact .inl h
+  | succ f ih =>
+    intro ls e h
+    unfold childStep at h
+    split at h
+    · split at h
+      · simp only [List.mem_append, List.mem_singleton] at h
+        rcases h with h | h
+        · exact .inl h
+        · exact .inr (by rw [h])
+      · split at h
+        · exact .inl h
+        · simp only [List.mem_append, List.mem_singleton] at h
+          rcases h with h | h
+          · exact .inl h
+          · exact .inr (by rw [h])
+    · split at h
+      · split at h <;>
+        · simp only [List.mem_append, List.mem_map] at h
+          rcases h with h | ⟨x, _, rfl⟩
+          · exact .inl h
+          · exact .inr rfl
+      · split at h <;> split at h
+        all_goals first
+          | (simp only [List.mem_append, List.mem_singleton] at h
+             rcases h with h | h
+             · exact .inl h
+             · exact .inr (by rw [h]))
+          | (rcases ih _ e h with h' | h'
+             · exact .inl h'
+             · exact .inr h')
+
+/-- The index recorded with a children error designates a child of the parent, or `len` for
+    "content ended too early": it never points outside the parent's child list. -/
+theorem error_index_in_range (A : Arena) (n root : Nat) (w : List QN) :
+    ∀ e ∈ (childErrors A n root w).errors, e.index ≤ w.length := by
+  intro e he
+  unfold childErrors at he
+  simp only at he
+  split at he
+  · simp only [List.mem_singleton] at he; subst he; exact Nat.zero_le _
+  · simp only [List.mem_append] at he
+    rcases he with he | he
+    · -- errors accumulated by the fold carry indices of `zipIdx`
+      have key : ∀ (l : List (QN × Nat)) (ls : LoopSt),
+          (∀ x ∈ l, x.2 < w.length) → (∀ e ∈ ls.errors, e.index ≤ w.length) →
+          ∀ e ∈ (l.foldl (fun ls (x : QN × Nat) => childStep A n root x.2 x.1 (4 * A.size + 8) ls) ls).errors,
+            e.index ≤ w.length := by
+        intro l
+        induction l with
+        | nil => intro ls _ h e he; exact h e he
+        | cons x t ih =>
+          intro ls hl h e he
+          simp only [List.foldl_cons] at he
+          apply ih _ (fun y hy => hl y (List.mem_cons_of_mem _ hy)) _ e he
+          intro e' he'
+          rcases childStep_errors A n root x.2 x.1 _ ls e' he' with h' | h'
+          · exact h e' h'
+          · rw [h']; exact Nat.le_of_lt (hl x (List.mem_cons_self))
+      refine key w.zipIdx _ ?_ ?_ e he
+      · intro x hx
+        have := List.mem_zipIdx hx
+        simp at this
+        omega
+      · intro e he; simp at he
+    · split at he
+      · simp at he
+      · split at he
+        · simp only [List.mem_singleton] at he; subst he; exact Nat.le_refl _
+        · simp at he
+
+/-! ### the pinned ModelVisitor is not a decision procedure (finding C01-F0)
+
+The full statement  `∀ p w, Det p → verdict (arena p) w = inModel p w`  is FALSE for the pinned
+algorithm; the three root causes below are kernel-evaluated on the port and replayed on the real
+code by the harness (corpus/C01).  What is claimed for the visitor is the correspondence
+(port = implementation on every explored case) and the exact-match rule of the known finding. -/
+
+private def qa : QN := ⟨"urn:t", "a"⟩
+private def qb : QN := ⟨"urn:t", "b"⟩
+private def qc : QN := ⟨"urn:t", "c"⟩
+
+/-- `(b{2,3}){1,2}` -/
+def mGreedy : Particle := .group 0 .seq 1 (some 2) (.cons (.leaf (.elem 1 [qb]) 2 (some 3)) .nil)
+/-- `(b?, choice(a?))` -/
+def mChoiceExcess : Particle :=
+  .group 0 .seq 1 (some 1) (.cons (.leaf (.elem 1 [qb]) 0 (some 1))
+    (.cons (.group 2 .choice 1 (some 1) (.cons (.leaf (.elem 3 [qa]) 0 (some 1)) .nil)) .nil))
+/-- `(c?){2,2}` -/
+def mEmptiable : Particle := .group 0 .seq 2 (some 2) (.cons (.leaf (.elem 1 [qc]) 0 (some 1)) .nil)
+
+/-- greedy split: `bbbb ∈ L((b{2,3}){1,2})` but the visitor rejects it -/
+theorem visitor_counterexample_greedy_split :
+    inModel mGreedy [qb, qb, qb, qb] = true ∧
+    verdict (mkArena 2 mGreedy.flatten) 2 0 [qb, qb, qb, qb] = false := by decide +kernel
+
+/-- nested choice never checks its excess: `baa ∉ L((b?, choice(a?)))` but the visitor accepts it -/
+theorem visitor_counterexample_choice_excess :
+    inModel mChoiceExcess [qb, qa, qa] = false ∧
+    verdict (mkArena 4 mChoiceExcess.flatten) 4 0 [qb, qa, qa] = true := by decide +kernel
+
+/-- emptiable repeated group: `c ∈ L((c?){2,2})` but the visitor rejects it -/
+theorem visitor_counterexample_emptiable_repeat :
+    inModel mEmptiable [qc] = true ∧
+    verdict (mkArena 2 mEmptiable.flatten) 2 0 [qc] = false := by decide +kernel
+
+/-! ### non-vacuity -/
+
+example : InModel mGreedy [qb, qb, qb, qb] :=
+  (oracle_decides_language _ _).mp (by decide +kernel)
+example : ¬ InModel mChoiceExcess [qb, qa, qa] := fun h =>
+  absurd ((oracle_decides_language _ _).mpr h) (by decide +kernel)
+example : verdict (mkArena 2 mGreedy.flatten) 2 0 [qb, qb, qb] = true := by decide +kernel
+
 end XsVerif.Props.C01
